@@ -289,8 +289,8 @@ macro_rules! excl_frag_step {
 excl_frag_step!(c01_exclusive_append_fragmented_tail32_len70, 32, 70);
 // @verif tier=thorough unwind=5
 excl_frag_step!(c01_exclusive_append_fragmented_tail128_len96_straddles, 128, 96);
-// @verif tier=thorough unwind=5
-excl_frag_step!(c01_exclusive_append_fragmented_tail64_len96, 64, 96);
+// @verif tier=quick unwind=5
+excl_frag_step!(c01_exclusive_append_fragmented_tail64_len96_exact_multiple, 64, 96);
 
 /// claim -> (write) -> commit / abort, shared appender.
 // @verif tier=quick unwind=4
